@@ -179,6 +179,7 @@ func (x *Exec) fieldPath(st *State, cur *Val, curT types.Type, idx []int, at ast
 
 func (x *Exec) fieldRead(st *State, sname, path string, t types.Type, ref string) *Val {
 	e := x.e
+	x.lockAccess(st, sname, path, ref, "read")
 	switch e.kindOf(t) {
 	case KStruct:
 		stt := t.Underlying().(*types.Struct)
@@ -213,6 +214,7 @@ func (x *Exec) fieldRead(st *State, sname, path string, t types.Type, ref string
 
 func (x *Exec) fieldWrite(st *State, sname, path string, t types.Type, ref string, v *Val) {
 	e := x.e
+	x.lockAccess(st, sname, path, ref, "write")
 	if _, mine := x.owned[ref]; !mine || x.escaped[ref] {
 		x.escapes(v)
 	} else if v != nil && v.K == KInt {
